@@ -767,6 +767,11 @@ class Schema:
             elif st.kind == "pragma":
                 self.pragmas.append(st)
 
+    def columns_of(self, table):
+        """Column names of a base table ([] for views / unknown names)."""
+        t = self.tables.get(table)
+        return [c.name for c in t.columns] if t else []
+
     def is_singleton(self, table):
         """Table with a PK column constrained to a single value."""
         t = self.tables.get(table)
